@@ -4,7 +4,7 @@
 Require Extraction.
 Require Import ExtrOcamlBasic ExtrOcamlZBigInt ExtrOcamlNatBigInt.
 From LZ4V Require Import Spec.BlockSpec Spec.BlockFast.
-From LZ4V Require Import Gen.Consts Model.Mem Model.Fast Model.FastApi Model.FastStream Model.HcEmit Model.HcMid Model.HcMidStream Model.HcChain Model.HcChainApi Model.HcChainStream.
+From LZ4V Require Import Gen.Consts Model.Mem Model.Fast Model.FastApi Model.FastStream Model.HcEmit Model.HcMid Model.HcMidStream Model.HcChain Model.HcChainApi Model.HcChainStream Model.HcOpt Model.HcOptApi Model.HcTabStream Model.HcOptStream.
 Extraction Language OCaml.
 Extraction "lz4v.ml"
   spec_decode_fast strict_valid_fast
@@ -14,4 +14,6 @@ Extraction "lz4v.ml"
   hs_init hs_resetStream hs_resetFast hs_setLevel hs_loadDict hs_attach hs_continue hs_continue_destSize hs_saveDict
   hs_fastReset hs_extState hstep k_endIdx
   cs_init cs_resetStream cs_resetFast cs_setLevel cs_loadDict cs_attach cs_continue cs_continue_destSize cs_saveDict
-  cs_fastReset cs_extState cstep ctget.
+  cs_fastReset cs_extState cstep ctget
+  ts_init ts_resetStream ts_resetFast ts_setLevel ts_setFav ts_attach ts_saveDict os_loadDict os_continue os_continue_destSize
+  os_fastReset os_extState ostep.
